@@ -28,7 +28,7 @@ CHECKS = {
 # Properties not claimed (with reason). Filled/emptied as checks are built.
 NOT_APPLICABLE = {}
 
-HOOK_COMMITS = ["cd541b0", "94bb9f9", "ab6c13a", "00dbf96"]
+HOOK_COMMITS = ["cd541b0", "94bb9f9", "ab6c13a", "00dbf96", "63e0ad6"]
 
 CHECKS["C06"] = {
     "tests": [T("TestC06", 300, 2500)],
@@ -82,5 +82,16 @@ CHECKS["C17"] = {
     "level_text": "All k! release orders at the append/persist point for k<=4 are enumerated in both tiers; larger k sampled. Interleavings at other instructions are reached only by chance.",
     "level_note": "The harness owns only the schedule point between Append and the _localHeads Put; trusted: go-ipfs-log's Append lock.",
     "design_ref": "5/C17",
+    "assumptions": TRUST,
+}
+
+CHECKS["C16"] = {
+    "tests": [T("TestC16Emitter", 1500, 20000), T("TestC16Store", 120, 1500), T("TestC16Strict", 120, 1500)],
+    "level": "exploration",
+    "technique": "property-based testing (rapid) with a harness-owned schedule point in the legacy emitter's drainer; sequence oracle (received == emitted, in order, once) and in-handler state queries on store events",
+    "rule": "TestC16Emitter: rapid draws up to 14 steps of emit m (1-4 or 14-40 events) / read k / hold (park the drainer at the hook between taking an event off the overflow queue and sending it) / release on a bare events.EventEmitter; at the end everything is released and the subscriber must have received exactly 0..N-1 in order; non-trivial = the overflow queue was in use (>17 undelivered events) AND the drainer was held at least once. TestC16Store: rapid draws a store (eventlog/keyvalue), 0-2 other writers, up to 10 steps of local write runs (1-4 or 15-30), remote writes and merges; an event-bus subscriber and a legacy-channel subscriber that stalls for a drawn number of steps and then reads slowly both query the store from inside their handler (OpLog().Get(hash), listing contains it / Get(key) is the announced value or a later one); oracle: exactly one write event per successful write in write order, one replicated event per merged batch (hook count), every replicated entry announced, state never behind the event, and the legacy subscriber sees the same sequence as the bus; non-trivial = >16 writes and at least one replication. TestC16Strict (same generator): the subscriber's channel has NO buffer and the harness refuses to receive until the view reflects the write / the merged batch (batches are reported by the replicator hook); the bus delivers synchronously, so a store that emits before updating its state parks inside Emit with the state lacking the entry - a state-based, non-racy verdict; then the event must arrive and carry exactly that entry / batch; non-trivial = at least one local write and one merged batch; distinct = SHA-1 of the case JSON",
+    "level_text": "Generated schedules/histories; the one harness-owned interleaving point is the drainer hook. Other interleavings are reached by chance only.",
+    "level_note": "Loss is judged after a 20 s wait with everything released (a wait bound, the only place a clock ends a positive claim without a state-based rest detector: the bare emitter has no other observable). A failure must reproduce in the driver's re-execution to be reported.",
+    "design_ref": "5/C16",
     "assumptions": TRUST,
 }
